@@ -191,11 +191,21 @@ fn gen_c04(cfg: &GenCfg, rng: &mut Rng, w: &mut dyn Write, kind: &str) {
     let orders = perms(n);
     let quants = ["forall", "exists", "unique"];
     for (oi, order) in orders.iter().enumerate() {
-        if !cfg.thorough && oi % 2 == 1 {
+        if !cfg.thorough && oi % 3 == 2 {
             continue;
         }
         writeln!(w, "case c04-n3-o{}", oi).unwrap();
-        prelude(w, n, order, 1, 1024, true);
+        if oi % 2 == 0 {
+            prelude(w, n, order, 1, 1024, true);
+        } else {
+            // worker threads with a split depth of 1: the parallel recursors hand over to the
+            // sequential ones one level below the root (quantification, restrict, substitution)
+            writeln!(w, "mgr nodes=65536 cache=1024 threads=2 split=1 vars={}", n).unwrap();
+            writeln!(w, "order {}", order_str(order)).unwrap();
+            for t in 0..(1u64 << (1 << n)) {
+                writeln!(w, "{} f{} {:x}", if t % 2 == 0 { "tt" } else { "ttb" }, t, t).unwrap();
+            }
+        }
         if !zbdd(kind) && oi == 0 {
             // substitution objects created by several threads at once: pairwise distinct identifiers
             writeln!(w, "substids 4 {} f{} {}", if cfg.thorough { 20000 } else { 6000 }, 0x96, 1).unwrap();
